@@ -13,6 +13,7 @@ Require Import WnV.Base.Sx WnV.Model.Spec WnV.Model.Tables WnV.Model.Query WnV.M
 Require Import WnV.Proofs.CoreLemmas WnV.Proofs.QueryFacts WnV.Proofs.ScopeProofs WnV.Proofs.SearchProofs
         WnV.Proofs.NavProofs WnV.Proofs.RelGeneric WnV.Proofs.RelProofs WnV.Proofs.RelClosureProofs
         WnV.Proofs.ExpandProofs WnV.Proofs.FrameProofs WnV.Proofs.CoreNonvacuity.
+Require Import WnV.Proofs.SynsetFormFrame.
 Local Open Scope Z_scope.
 
 (* ---- the scope itself *)
@@ -462,3 +463,98 @@ Theorem C04_db_ok_fuzz :
 Proof. exact (@db_ok_fuzz). Qed.
 Print Assumptions C04_db_ok_fuzz.
 
+(* ---- frame for synsets(form): since the repair of F22 (only senses of the selected lexicons link a form to a synset) the form search of a restricted Wordnet returns the same synsets on two databases that agree on the selected senses, on the forms of their entries and on the selected synsets; as lists when the two also agree on the order of the form rows that selected senses reach (the order matters: see the last Example); before the repair the statement was false (ex_F22_sense is the situation: the second database adds a sense of an unselected lexicon to a selected entry, pointing to another selected synset) *)
+Theorem C04_find_synsets_forms_frame_In :
+  forall (d1 d2 : db) (ids : list Z) (id : option str) (forms : list str)
+           (pos ili : option str) (norm saf : bool) (q : q_synset),
+         ids <> [] ->
+         db_ok d1 = true ->
+         db_ok d2 = true ->
+         agree_senses d1 d2 ids ->
+         agree_sense_forms d1 d2 ids ->
+         agree_synsets d1 d2 ids ->
+         In q (find_synsets d1 id forms pos ili ids norm saf) <->
+         In q (find_synsets d2 id forms pos ili ids norm saf).
+Proof. exact (@find_synsets_forms_frame_In). Qed.
+Print Assumptions C04_find_synsets_forms_frame_In.
+
+Theorem C04_find_synsets_forms_frame :
+  forall (d1 d2 : db) (ids : list Z) (id : option str) (forms : list str)
+           (pos ili : option str) (norm saf : bool),
+         ids <> [] ->
+         db_ok d1 = true ->
+         db_ok d2 = true ->
+         agree_senses d1 d2 ids ->
+         agree_sense_forms d1 d2 ids ->
+         agree_synsets d1 d2 ids ->
+         agree_relevant_forms d1 d2 ids ->
+         find_synsets d1 id forms pos ili ids norm saf =
+         find_synsets d2 id forms pos ili ids norm saf.
+Proof. exact (@find_synsets_forms_frame). Qed.
+Print Assumptions C04_find_synsets_forms_frame.
+
+Theorem C04_agree_relevant_sense_forms :
+  forall (d1 d2 : db) (ids : list Z),
+         agree_relevant_forms d1 d2 ids -> agree_sense_forms d1 d2 ids.
+Proof. exact (@agree_relevant_sense_forms). Qed.
+Print Assumptions C04_agree_relevant_sense_forms.
+
+Theorem C04_ex_distinct :
+  ex_d1 <> ex_d2.
+Proof. exact (@ex_distinct). Qed.
+Print Assumptions C04_ex_distinct.
+
+Theorem C04_ex_F22_sense :
+  exists (s : sense_row) (e : entry_row) (ss : synset_row),
+           In s (t_senses ex_d2) /\
+           ~ In s (t_senses ex_d1) /\
+           sel ex_ids (se_lexicon_rowid s) = false /\
+           find_by en_rowid (se_entry_rowid s) (t_entries ex_d2) = Some e /\
+           sel ex_ids (en_lexicon_rowid e) = true /\
+           find_by sy_rowid (se_synset_rowid s) (t_synsets ex_d2) = Some ss /\
+           sel ex_ids (sy_lexicon_rowid ss) = true /\ sy_rowid ss = 2.
+Proof. exact (@ex_F22_sense). Qed.
+Print Assumptions C04_ex_F22_sense.
+
+Theorem C04_ex_results :
+  find_synsets ex_d1 None [S_ "a"] None None ex_ids false false =
+         find_synsets ex_d2 None [S_ "a"] None None ex_ids false false /\
+         find_synsets ex_d2 None [S_ "a"] None None ex_ids false false =
+         [{|
+            qy_id := S_ "ss1"; qy_pos := Some (S_ "n"); qy_ili := None; qy_lexid := 1; qy_rowid := 1
+          |}].
+Proof. exact (@ex_results). Qed.
+Print Assumptions C04_ex_results.
+
+Theorem C04_ex_results_all_lexicons :
+  Datatypes.length (find_synsets ex_d1 None [S_ "a"] None None [1; 2] false false) = 1%nat /\
+         Datatypes.length (find_synsets ex_d2 None [S_ "a"] None None [1; 2] false false) = 3%nat.
+Proof. exact (@ex_results_all_lexicons). Qed.
+Print Assumptions C04_ex_results_all_lexicons.
+
+Theorem C04_ex_frame_instance :
+  forall (id : option str) (forms : list str) (pos ili : option str)
+           (norm saf : bool) (q : q_synset),
+         In q (find_synsets ex_d1 id forms pos ili ex_ids norm saf) <->
+         In q (find_synsets ex_d2 id forms pos ili ex_ids norm saf).
+Proof. exact (@ex_frame_instance). Qed.
+Print Assumptions C04_ex_frame_instance.
+
+Theorem C04_ex_frame_eq_instance :
+  forall (id : option str) (forms : list str) (pos ili : option str) (norm saf : bool),
+         find_synsets ex_d1 id forms pos ili ex_ids norm saf =
+         find_synsets ex_d2 id forms pos ili ex_ids norm saf.
+Proof. exact (@ex_frame_eq_instance). Qed.
+Print Assumptions C04_ex_frame_eq_instance.
+
+Theorem C04_ex_order_needed :
+  db_ok ex_o1 = true /\
+         db_ok ex_o2 = true /\
+         agree_senses ex_o1 ex_o2 ex_ids /\
+         agree_sense_forms ex_o1 ex_o2 ex_ids /\
+         agree_synsets ex_o1 ex_o2 ex_ids /\
+         map qy_rowid (find_synsets ex_o1 None [S_ "a"] None None ex_ids false false) = [1; 2] /\
+         map qy_rowid (find_synsets ex_o2 None [S_ "a"] None None ex_ids false false) = [2; 1] /\
+         ~ agree_relevant_forms ex_o1 ex_o2 ex_ids.
+Proof. exact (@ex_order_needed). Qed.
+Print Assumptions C04_ex_order_needed.
